@@ -141,8 +141,8 @@ def r07_3(chk, P):
     return n
 
 
-def r07_6(chk, P, E):
-    chk.rule('R07.6', 'in vorbisfile.c no local value derived from the handle\'s current link (vf->current_link, ov_info(vf,-1), '
+def r07_6(chk, P, E, rule='R07.6', only=None):
+    chk.rule(rule, 'in vorbisfile.c no local value derived from the handle\'s current link (vf->current_link, ov_info(vf,-1), '
              'ov_comment(vf,-1), vf->vi+vf->current_link, ...) is used after a call that may change vf->current_link (K3 '
              'write-sets) without being recomputed: per-link data is never stale across a link switch')
     # functions that may write OggVorbis_File.current_link
@@ -160,10 +160,12 @@ def r07_6(chk, P, E):
             others = [c for c in F.calls() if c not in cs and any(t in writers for t in P.call_targets(F, c))]
             if not others:
                 nonspanning.add(F.name)
-    chk.notes.append(f'R07.6: non-spanning fetchers (spanp constant 0, no other link-changing call): {sorted(nonspanning)}')
+    chk.notes.append(f'{rule}: non-spanning fetchers (spanp constant 0, no other link-changing call): {sorted(nonspanning)}')
     n = 0
     for F in P.functions():
         if not F.file.endswith('vorbisfile.c'):
+            continue
+        if only is not None and F.name not in only:
             continue
         defs = {}      # var id -> list of defining nodes whose value depends on current_link
         for e in F.pos:
@@ -228,7 +230,7 @@ def r07_6(chk, P, E):
                     if p2 is not None:
                         bad = (sw, p1 + p2[1:])
                         break
-                chk.ob('R07.6', P.key(F), f'link-derived:{name}', bad is None, F.where(d),
+                chk.ob(rule, P.key(F), f'link-derived:{name}', bad is None, F.where(d),
                        f'`{F.s(d)[:60]}` is not used across a link switch' if bad is None else
                        f'`{name}` (from `{F.s(d)[:50]}`) can be used after `{F.s(bad[0])[:50]}` changed the current link',
                        path=cfg.block_lines(F, bad[1]) if bad else None)
